@@ -64,6 +64,9 @@ def run(p, report, tier):
                 "label-encoder output", floor=60)
     report.rule("R9.2", "an array that is concatenated with a label array is not created as np.full(n, np.nan): the "
                 "filler must be the strategy's sentinel", floor=2)
+    report.rule("R9.4", "outside utils/_label.py no function applies np.isnan / np.isfinite / np.nan_to_num directly to "
+                "its label parameter (y, y_true, y_pred); missing labels are recognised only through the sentinel-aware "
+                "predicates", floor=1)
     report.rule("R9.3", "project models and encoders constructed inside strategies / classifiers receive an explicit "
                 "missing_label", floor=8)
     n_sites = 0
@@ -155,6 +158,34 @@ def run(p, report, tier):
                                    "unlabeled filler is a NaN literal: with any other missing_label these entries count as labels")
     if report.count("R9.2") == 0:
         raise AnalysisError("C09 R9.2: no label-concatenation site found (anchor vanished)")
+    # ---------------- R9.4 no direct NaN test on label arrays
+    NAN_TEST_OK = {
+        "_one_versus_rest_transform": "receives only the labeled, label-encoded subset y[mask_l] (Quire.query)",
+    }
+    n94 = 0
+    for f in p.all_functions():
+        if f.file.startswith("skactiveml/visualization") or f.file.endswith("utils/_label.py"):
+            continue
+        ypars = [a for a in f.all_param_names() if a in ("y", "y_true", "y_pred", "Y")]
+        if not ypars:
+            continue
+        edges = dep_edges(f.node.body)
+        ylike = closure_fw(set(ypars), edges) | set(ypars)
+        for n in ast.walk(f.node):
+            bad = None
+            if isinstance(n, ast.Call) and c01.callname(n) in ("isnan", "isfinite", "nan_to_num") and n.args \
+                    and isinstance(n.args[0], (ast.Name, ast.Subscript)):
+                b = base_name(n.args[0]) if not isinstance(n.args[0], ast.Name) else n.args[0].id
+                if b in ypars:
+                    bad = n
+            if bad is not None:
+                n94 += 1
+                exc = NAN_TEST_OK.get(f.name)
+                report.add("R9.4", f.qual, f"NaN test on the label array `{norm_stmt(bad, 50)}`", f"{f.file}:{bad.lineno}",
+                           exc is not None, detail=("accepted: " + exc) if exc else
+                           "missing labels are recognised by a NaN test instead of is_unlabeled(y, missing_label): "
+                           "wrong for every other sentinel")
+    report.analysed["nan_tests_on_label_arrays"] = n94
     # ---------------- R9.3
     for f in p.all_functions():
         if f.file.startswith("skactiveml/visualization"):
